@@ -145,6 +145,13 @@ def pendingSets (b : Book) (p t : Nat) : List Nat :=
     | some c => !c.ret && (match c.kind with | .set p' _ => p' == p | _ => false)
     | none => false
 
+/-- the calls that may have won against the loser `t`: the candidates known so far, or every other
+pending `SetResult` on the promise -/
+def lostCands (b : Book) (i : PW) (p t : Nat) : List Nat :=
+  match i.cands with
+  | some L => L.filter (· != t)
+  | none => pendingSets b p t
+
 /-- call `w` is observed to have won promise `p` -/
 def winBy (ms : SetSt) (p w : Nat) : Option SetSt :=
   match ms.pw[p]? with
@@ -172,9 +179,7 @@ def monC11set : ObsMonitor Obs SetSt where
               if i.won = some t then none
               else if i.won.isSome then next { ms with lost := t :: ms.lost }
               else
-                let L := match i.cands with
-                  | some L => L.filter (· != t)
-                  | none => pendingSets ms.b p t
+                let L := lostCands ms.b i p t
                 if L.isEmpty then none else next { ms with pw := ms.pw.set p { i with cands := some L }, lost := t :: ms.lost }
             | none => none
         | _ => none
